@@ -42,12 +42,16 @@ func vPack(r *ChunkReader, mtu uint16) (chunks []*KV, more, eof bool, err error)
 // into batches, reassemble, compare.
 func VerifC15_ContentRoundTrip() {
 	verif.NoPanic()
-	verif.Bound("C15c", "1..2 (quick) / 1..3 (thorough) messages, key 'm:a'/'m:b'/'mod:c' (distinct consecutive keys), value 1..3 (quick) / 1..6 (thorough) symbolic bytes, MTU every value 12..40 (quick) / 10..64 (thorough); buffered pipes; producer runs to completion, then consumer (one schedule)")
+	verif.Bound("C15c", "1..2 (quick) / 1..3 (thorough) messages, key 'm:a'/'m:b'/'mod:c' (distinct consecutive keys), value of {1,2,3,9} (quick) / {1..6,9,20} (thorough) symbolic bytes (so that values both fit and overflow the room left in a message), MTU every value 12..40 (quick) / 10..64 (thorough); buffered pipes; producer runs to completion, then consumer (one schedule)")
 	nmsg := 1 + verif.Choose("nmsg", 2+verif.Tier())
 	keys := []string{"m:a", "m:b", "mod:c"}
 	var msgs []vMsg
 	for i := 0; i < nmsg; i++ {
-		n := 1 + verif.Choose("nval", 3+3*verif.Tier())
+		lens := []int{1, 2, 3, 9}
+		if verif.Tier() > 0 {
+			lens = []int{1, 2, 3, 4, 5, 6, 9, 20}
+		}
+		n := lens[verif.Choose("nval", len(lens))]
 		msgs = append(msgs, vMsg{key: keys[i], val: verif.Bytes("val", n)})
 	}
 	lo, hi := 12, 40
@@ -67,13 +71,16 @@ func VerifC15_ContentRoundTrip() {
 
 	ur, cw := NewChunkInPipe(8)
 	rounds := 0
+	// the consumer keeps every batch until the producer side is exhausted (a
+	// returned chunk must stay valid across later ReadChunk calls), then reassembles
+	var all []*KV
 	for {
 		chunks, _, eof, err := vPack(cr, mtu)
 		verif.Assert(err == nil, "chunking never fails for keys that fit the MTU")
 		var total uint16
 		for _, c := range chunks {
 			total += c.Size()
-			verif.Assert(cw.WriteChunk(c) == nil, "WriteChunk")
+			all = append(all, c)
 		}
 		verif.Assert(total <= mtu, "a batch of chunks fits the MTU")
 		if eof {
@@ -84,6 +91,9 @@ func VerifC15_ContentRoundTrip() {
 		if len(chunks) == 0 && rounds > 30 {
 			break
 		}
+	}
+	for _, c := range all {
+		verif.Assert(cw.WriteChunk(c) == nil, "WriteChunk")
 	}
 	verif.Assert(cw.Close() == nil, "ChunkWriter.Close")
 	for i, m := range msgs {
@@ -125,14 +135,14 @@ func VerifC15_SizeArithmetic() {
 // (a) budget with a symbolic size: whatever the size, a returned chunk fits it.
 func VerifC15_BudgetSymbolic() {
 	verif.NoPanic()
-	verif.Bound("C15a", "one message, key 'm:a' or a 30-byte key, 0..4 value bytes available; size = any uint16 (allocation lengths explored by classes: 6 smallest and the largest)")
+	verif.Bound("C15a", "one message, key 'm:a' or a 30-byte key, 0..4, 30 or 300 value bytes available (so that chunks with 23/24 and 255/256 value bytes - the CBOR head-size boundaries - occur); size = any uint16, split by the code's own overhead branches; within each branch the buffer length is explored by classes (6 smallest and the largest feasible value)")
 	cr, uw := NewChunkOutPipe(4)
 	mod := "m"
 	if verif.Choose("longkey", 2) == 1 {
 		mod = "mmmmmmmmmmmmmmmmmmmmmmmmmmmm"
 	}
 	verif.Assert(uw.NextServiceInfo(mod, "a") == nil, "NextServiceInfo")
-	n := verif.Choose("nval", 5)
+	n := []int{0, 1, 2, 3, 4, 30, 300}[verif.Choose("nval", 7)]
 	if n > 0 {
 		_, err := uw.Write(verif.Bytes("val", n))
 		verif.Assert(err == nil, "Write")
